@@ -124,7 +124,7 @@ def random_dag(rng, n, p):
     return [(i, j) for i in range(n) for j in range(n) if pos[j] < pos[i] and rng.random() < p]
 
 
-def mk_spec(n, edges, kinds=None, whens=None, inputs=None, unspawnable=(), generic=(), bigfiles=None, textdeps=()):
+def mk_spec(n, edges, kinds=None, whens=None, inputs=None, unspawnable=(), generic=(), bigfiles=None, textdeps=(), unspawnable_how=None):
     """edges: (i, j) or (i, j, kind); kind in step|file|glob|globi.
     unspawnable: steps whose command cannot be SPAWNED (not: exits non-zero): they get a --line_items dependency on a
     file with a NUL byte in a selected line; xvc exports the lines in XVC_ALL_LINE_ITEMS and exec() refuses the
@@ -137,6 +137,8 @@ def mk_spec(n, edges, kinds=None, whens=None, inputs=None, unspawnable=(), gener
             'inputs': list(inputs) if inputs else [False] * n}
     if unspawnable:
         spec['unspawnable'] = sorted(unspawnable)
+        if unspawnable_how:
+            spec['unspawnable_how'] = unspawnable_how      # 'e2big': a 140000 character item instead of the NUL byte
     if generic:
         spec['generic'] = sorted(generic)             # steps with `--generic 'cat gen/s<i>.txt'`
     if bigfiles:
@@ -193,7 +195,8 @@ def mk_case(spec, pool, behav=None, sched=None, runs=1, missing=(), absent_outpu
     n = spec['n']
     behav = behav or [{} for _ in range(n)]
     behav = [dict({'rc': b.get('rc', 0), 'sleep_ms': b.get('sleep_ms', 0), 'out': b.get('out', 0), 'err': b.get('err', 0)},
-                  **({'signal': b['signal'], 'sigtouch': bool(b.get('sigtouch'))} if b.get('signal') else {})) for b in behav]
+                  **({'signal': b['signal'], 'sigtouch': bool(b.get('sigtouch'))} if b.get('signal') else {}),
+                  **({'closefds': b['closefds']} if b.get('closefds') else {})) for b in behav]
     return {'spec': spec, 'pool': pool, 'behav': behav, 'sched': sched, 'runs': runs, 'missing': sorted(missing),
             'absent_outputs': bool(absent_outputs), 'label': label, 'touch_inputs': bool(touch_inputs), **({'fault': fault} if fault else {})}
 
@@ -230,7 +233,11 @@ def build_template(ctx, spec, absent_outputs=False):
         if spec['inputs'][i]:
             sb.write(in_path(i), f'input {i}\n')
     for i in spec.get('unspawnable', []):
-        sb.write(nul_path(i), b'first\nsecond\0line\nthird\n')
+        if spec.get('unspawnable_how') == 'e2big':
+            # one selected line of 140000 characters: XVC_ALL_LINE_ITEMS exceeds the 128 KiB per-string limit of execve (E2BIG)
+            sb.write(nul_path(i), b'first\n' + b'x' * 140000 + b'\nthird\n')
+        else:
+            sb.write(nul_path(i), b'first\nsecond\0line\nthird\n')
     refresh_changing_deps(sb.root, {k: v for k, v in spec.items() if k in ('generic', 'textdeps')}, 0)
     log = []
 
@@ -241,7 +248,7 @@ def build_template(ctx, spec, absent_outputs=False):
             raise RuntimeError(f'xvc pipeline {" ".join(args)} failed rc={rc}: {err[-500:]}')
     for i in range(n):
         # `$$`: pid of the shell xvc runs the command with; used by the outcome class "terminated by a signal"
-        args = ['step', 'new', '-s', f's{i}', '-c', f'{ctx.step_bin} s{i} $$']
+        args = ['step', 'new', '-s', f's{i}', '-c', f'exec {ctx.step_bin} s{i} $$']
         if spec['whens'][i] != 'by_dependencies':
             args += ['--when', spec['whens'][i]]
         x(*args)
@@ -512,6 +519,8 @@ def run_case(ctx, case, hook=False, timeout=20, keep=False):
         lines = [f'sleep_ms {b["sleep_ms"]}', f'rc {b["rc"]}', f'out {b["out"]}', f'err {b["err"]}']
         if b.get('signal'):
             lines += [f'signal {b["signal"]}', f'sigtouch {1 if b.get("sigtouch") else 0}']
+        if b.get('closefds'):
+            lines.append(f'closefds {b["closefds"]}')
         if i in need_out:
             lines.append(f'touch {out_path(i)}')
         open(os.path.join(root, '.ctl', f's{i}'), 'w').write('\n'.join(lines) + '\n')
@@ -976,6 +985,8 @@ def run_family(ctx, stream, cases, own, hook=False, timeout=20, workers=8, valid
         for w in case['spec']['whens']:
             chk.count(f'when:{w}')
         for b in case['behav']:
+            if b.get('closefds'):
+                chk.count(f'outcome:streams-closed-early-{b["closefds"]}')
             chk.count('outcome:' + (f'signal-{b["signal"]}' + ('-after-writing-output' if b.get('sigtouch') else '') if b.get('signal')
                                     else ('exit-nonzero' if b['rc'] else 'exit-0')))
         if case.get('fault'):
@@ -1090,6 +1101,8 @@ def describe(case):
     for i in range(spec['n']):
         b = case['behav'][i]
         fin = (f'{"write the output file; " if b.get("sigtouch") else ""}kill -{b["signal"]} $$' if b.get('signal') else f'exit {b["rc"]}')
+        if b.get('closefds'):
+            fin = {1: 'stdout', 2: 'stderr', 3: 'stdout and stderr'}[b['closefds']] + f' CLOSED before the sleep (exec >log 2>&1); ' + fin
         L.append(f'xvc pipeline step new -s s{i} -c "<journal start; sleep {b["sleep_ms"]}ms; stdout {b["out"]}B stderr {b["err"]}B; {fin}>"'
                  + (f' --when {spec["whens"][i]}' if spec['whens'][i] != 'by_dependencies' else ''))
     for (a, j, k) in spec['edges']:
@@ -1111,7 +1124,10 @@ def describe(case):
     for i in spec.get('textdeps', []):
         L.append(f"xvc pipeline step dependency -s s{i} --lines 'lines_s{i}.txt::1-2' --regex 'lines_s{i}.txt:/^a/' --param 'params_s{i}.yaml::k' "
                  f"--glob 'glb_s{i}_*.glb'   # all rewritten before every run")
-    for i in spec.get('unspawnable', []):
+    for i in (spec.get('unspawnable', []) if spec.get('unspawnable_how') == 'e2big' else []):
+        L.append(f"(echo first; head -c 140000 /dev/zero | tr '\\0' x; echo; echo third) > {nul_path(i)}; xvc pipeline step dependency -s s{i} --line_items '{nul_path(i)}::1-3'"
+                 '   # XVC_ALL_LINE_ITEMS > 128 KiB: the command of this step cannot be started (execve E2BIG)')
+    for i in (spec.get('unspawnable', []) if spec.get('unspawnable_how') != 'e2big' else []):
         L.append(f"printf 'first\\nsecond\\0line\\nthird\\n' > {nul_path(i)}; xvc pipeline step dependency -s s{i} --line_items '{nul_path(i)}::1-3'"
                  '   # NUL byte in XVC_ALL_LINE_ITEMS: the command of this step cannot be spawned (EINVAL)')
     how = {'stdout-closed': ' | true', 'stdout-head1': ' | head -1', 'stdout-64bytes': ' | head -c 64', 'stderr-closed': ' 2>&1 >/dev/null | true',
